@@ -186,6 +186,14 @@ class CoreTask:
         except Exception as e:      # noqa
             res["status"] = "crash"
             res["detail"] = "%s\n%s" % (e, traceback.format_exc())
+        if self.which == "iter_errors" and (res["status"] == "out-of-subset" or any(o["status"] != "discharged" for o in res["obligations"])):
+            # directed search at the dispatch level (two-keyword schemas) on the real code
+            from pyvc import driver
+            for mode, slot in (("verdict", "search"), ("errors", "search_errors")):
+                try:
+                    res[slot] = driver.rt_call("pyvc.rt_kw", {"cmd": "search_pairs", "mode": mode, "root": self.root, "drafts": [self.d], "limit": 3}, self.root, timeout=3000)
+                except Exception as e:      # noqa
+                    res[slot] = {"error": str(e)[-300:], "failures": []}
         res["wall_s"] = round(time.time() - t0, 3)
         return res
 
